@@ -61,6 +61,9 @@ T = {
     "reset_base": ("vecdb::base::read_write::ReadWriteBaseVec::<I, T>::reset_base", "reach",
                    r"vecdb::base::shared_len::SharedLen::set|vecdb::base::read_write::ReadWriteBaseVec::<I, T>::update_stored_len",
                    "reset must publish length 0"),
+    "eager_version": ("vecdb::variants::eager::any_vec::<impl vecdb::traits::any::AnyVec for vecdb::variants::eager::EagerVec<V>>::version",
+                      "must_reach", r"vecdb::base::header::Header::computed_version",
+                      "an EagerVec reports its computed version (so that columns derived from it are invalidated when it is)"),
     "try_lock_regions": ("rawdb::regions::Regions::open", "must_reach", r"std::fs::File::try_lock",
                          "Regions::open must take the advisory lock"),
     "sync_bg_joins": ("rawdb::Database::sync_bg_tasks", "reach", r"std::thread::(join_handle::)?JoinHandle::<T>::join",
